@@ -89,6 +89,16 @@ def run_sequence(case, ctx):
             for k in names:
                 model.buf[k] = want
             seen_sim = True
+            if want == torch.float64:
+                # "produced in it": a float64 simulation that was computed in a narrower type and cast afterwards
+                # holds only float32-representable numbers
+                bufs = dict(ul.named_buffers())
+                for k in names:
+                    b = bufs[k][:, 1:]
+                    if b.dtype == torch.float64 and b.numel() and bool(torch.isfinite(b).all()):
+                        ctx.check(not torch.equal(b.float().double(), b), "C17/simulated-in-lower-precision",
+                                  f"float64 buffer '{k}' holds only float32-representable values: the simulation was not produced in float64",
+                                  ops=case["ops"])
 
         def check_state(where):
             for k, b in ul.named_buffers():
